@@ -58,6 +58,16 @@ func (e *StrListEncoder) Encode(sl []string) []byte {
 	return b
 }
 
+// CheckStrListLen returns an error if any string in the list is too long to be encoded
+func CheckStrListLen(sl []string) error {
+	for _, s := range sl {
+		if len(s) > 65535 {
+			return fmt.Errorf("value %q is too long (%d > 65535 bytes)", s[:40]+"...", len(s))
+		}
+	}
+	return nil
+}
+
 // StrListDecoder decodes string slice.
 type StrListDecoder struct {
 	strs         []string
